@@ -2,6 +2,7 @@
 // system). Injected as `dir::verif_h`; built with `--features dir`; the memchr crate is the
 // model crate (the real one reaches CPUID inline assembly).
 #![allow(dead_code)]
+use http::header::{self, HeaderMap, HeaderValue};
 
 fn check_path<const N: usize>() {
     let buf: [u8; N] = kani::any();
@@ -51,4 +52,70 @@ fn validate_path_sym() {
 #[kani::unwind(13)]
 fn validate_path_sym10() {
     check_path::<10>()
+}
+
+/// `Node::encoding`, `encoding_varies`, `add_encoding_headers` for every (auto_gzip, is_gzipped)
+/// and a header map that may already carry stale Content-Encoding / Vary values. The `File` is
+/// never used and never closed, the `Metadata` is an all-zero placeholder that is never read
+/// (only the operating system can produce a real one); both are forgotten.
+/// SCENARIO node_encoding: auto_gzip:bool is_gzipped:bool stale_ce:bool stale_vary:bool
+#[kani::proof]
+#[kani::unwind(20)]
+fn node_encoding() {
+    use std::os::unix::io::FromRawFd;
+    let auto_gzip: bool = kani::any();
+    let is_gzipped: bool = kani::any();
+    let stale_ce: bool = kani::any();
+    let stale_vary: bool = kani::any();
+    // invariant of every Node FsDir::get builds: the .gz sibling is only tried under auto_gzip
+    kani::assume(!is_gzipped || auto_gzip);
+    let node = super::Node {
+        file: unsafe { std::fs::File::from_raw_fd(3) },
+        metadata: unsafe { std::mem::zeroed() },
+        auto_gzip,
+        is_gzipped,
+    };
+    let mut h = HeaderMap::new();
+    if stale_ce {
+        h.insert(header::CONTENT_ENCODING, HeaderValue::from_static("br"));
+    }
+    if stale_vary {
+        h.insert(header::VARY, HeaderValue::from_static("cookie"));
+    }
+    let enc = node.encoding();
+    assert!(enc.is_some() == is_gzipped, "C19: encoding() reports gzip exactly when the .gz sibling was substituted");
+    if let Some(e) = enc {
+        assert!(e.len() == 4 && e.as_bytes()[0] == b'g' && e.as_bytes()[1] == b'z' && e.as_bytes()[2] == b'i' && e.as_bytes()[3] == b'p',
+                "C19: encoding() names gzip");
+    }
+    assert!(node.encoding_varies() == auto_gzip, "C19: encoding_varies() is true exactly when automatic gzip is enabled");
+    node.add_encoding_headers(&mut h);
+    let ce = h.get(header::CONTENT_ENCODING);
+    if is_gzipped {
+        assert!(h.model_count(header::CONTENT_ENCODING) == 1, "C19: add_encoding_headers leaves exactly one Content-Encoding for a substituted .gz file");
+        let v = ce.unwrap().as_bytes();
+        assert!(v.len() == 4 && v[0] == b'g' && v[1] == b'z' && v[2] == b'i' && v[3] == b'p',
+                "C19: add_encoding_headers reports Content-Encoding: gzip for a substituted .gz file");
+    } else {
+        assert!(ce.is_some() == stale_ce, "C19: add_encoding_headers adds no Content-Encoding when the plain file was opened");
+    }
+    let vary = h.get(header::VARY);
+    if auto_gzip {
+        assert!(h.model_count(header::VARY) == 1, "C19: add_encoding_headers leaves exactly one Vary when automatic gzip is enabled");
+        let v = vary.unwrap().as_bytes();
+        let want = b"accept-encoding";
+        assert!(v.len() == want.len(), "C19: Vary: accept-encoding when automatic gzip is enabled");
+        let mut i = 0;
+        while i < want.len() {
+            assert!(v[i] == want[i], "C19: Vary: accept-encoding when automatic gzip is enabled");
+            i += 1;
+        }
+    } else {
+        assert!(vary.is_some() == stale_vary, "C19: no Vary is added when automatic gzip is disabled");
+    }
+    kani::cover!(is_gzipped && auto_gzip, "substituted node");
+    kani::cover!(!is_gzipped && !auto_gzip, "plain node without auto gzip");
+    kani::cover!(!is_gzipped && auto_gzip, "plain node under auto gzip");
+    std::mem::forget(h);
+    std::mem::forget(node);
 }
